@@ -1,5 +1,8 @@
 use std::borrow::Borrow;
+#[cfg(not(feature = "gohla_pie_verif"))]
 use std::collections::HashMap;
+#[cfg(feature = "gohla_pie_verif")]
+use pie_graph::verif::HashMap;
 
 use pie_graph::{Node, DAG};
 
